@@ -257,6 +257,7 @@ fn build_key(c: u32, v: u32) -> Key {
 #[derive(Clone)]
 enum Op {
     Create(char, u32, u32),
+    CreateP(char, u32, u32),   // get_or_create whose closure panics
     Get(char, u32, u32),
     Delete(char, u32, u32),
     Retain(char, Vec<u32>),
@@ -275,6 +276,7 @@ fn parse_op(t: &str) -> Op {
     };
     match b[0] {
         b'C' => { let (c, v) = cv(&t[2..]); Op::Create(kind, c, v) }
+        b'P' => { let (c, v) = cv(&t[2..]); Op::CreateP(kind, c, v) }
         b'G' => { let (c, v) = cv(&t[2..]); Op::Get(kind, c, v) }
         b'D' => { let (c, v) = cv(&t[2..]); Op::Delete(kind, c, v) }
         b'R' => Op::Retain(kind, t[2..].split('+').filter(|x| !x.is_empty()).map(|x| x.parse().unwrap()).collect()),
@@ -311,6 +313,17 @@ fn run_op(reg: &Registry<Key, Dbl>, op: &Op, key: Option<&Key>) -> String {
                 _ => reg.get_or_create_histogram(k, |h| h.clone()),
             };
             format!("S{}", h.0.id)
+        }
+        Op::CreateP(kind, _, _) => {
+            // the closure notes which storage it was handed, then panics; the unwinding call is caught here
+            let k = key.unwrap();
+            let seen = std::cell::Cell::new(u64::MAX);
+            let r = std::panic::catch_unwind(std::panic::AssertUnwindSafe(|| match kind {
+                'c' => reg.get_or_create_counter(k, |h| { seen.set(h.0.id); panic!("closure"); }),
+                'g' => reg.get_or_create_gauge(k, |h| { seen.set(h.0.id); panic!("closure"); }),
+                _ => reg.get_or_create_histogram(k, |h| { seen.set(h.0.id); panic!("closure"); }),
+            }));
+            if r.is_err() && seen.get() != u64::MAX { format!("Q{}", seen.get()) } else { "Q!".to_string() }
         }
         Op::Get(kind, _, _) => {
             let k = key.unwrap();
@@ -365,7 +378,7 @@ fn run_case(line: &str) -> String {
         .map(|p| {
             p.iter()
                 .map(|o| match o {
-                    Op::Create(_, c, v) | Op::Get(_, c, v) | Op::Delete(_, c, v) => Some(build_key(*c, *v)),
+                    Op::Create(_, c, v) | Op::CreateP(_, c, v) | Op::Get(_, c, v) | Op::Delete(_, c, v) => Some(build_key(*c, *v)),
                     Op::Retain(_, keep) => { for c in keep { class_info(*c); } None }
                     _ => None,
                 })
@@ -399,7 +412,7 @@ fn run_case(line: &str) -> String {
             p.iter()
                 .enumerate()
                 .map(|(i, o)| match (o, keys[t][i].as_ref()) {
-                    (Op::Create(_, c, v), Some(k)) | (Op::Get(_, c, v), Some(k)) | (Op::Delete(_, c, v), Some(k)) => {
+                    (Op::Create(_, c, v), Some(k)) | (Op::CreateP(_, c, v), Some(k)) | (Op::Get(_, c, v), Some(k)) | (Op::Delete(_, c, v), Some(k)) => {
                         format!("{}:{}:{}", c, v, k.get_hash())
                     }
                     _ => "-".to_string(),
@@ -985,11 +998,126 @@ fn keyrace(rounds: usize, budget_ms: u64, seed: u64) -> String {
             started.elapsed().as_millis(), msgs)
 }
 
+// ---- panicking caller-supplied closures, poisoned shard locks (sequential, judged by a reference map) ----
+// Rounds: populate (some get_or_create closures panic on the create path: the entry is inserted, the shard's
+// lock is poisoned), then ONE panicking event (retain predicate panicking at its n-th call; visit callback
+// panicking at its n-th call; get_or_create hit-path closure panicking), then ordinary operations on every
+// shard: get of every live / some absent keys, a retain with a logging keep-all predicate (every live entry
+// must be offered exactly once, poisoned shard or not), visit / handles = reference, truthful deletes, clear.
+// Reference after a panicking retain: exactly the entries for which the predicate returned false BEFORE it
+// panicked are gone (whatever the iteration order was).
+fn panics_engine(rounds: usize, seed: u64) -> String {
+    metrics::__verif::set_callback(None);
+    let slog: Arc<Mutex<Vec<(char, u32, u64)>>> = Arc::new(Mutex::new(Vec::new()));
+    let reg: Registry<Key, Dbl> = Registry::new(Dbl { next: AtomicU64::new(0), log: slog.clone() });
+    let mask = (reg.__verif_shard_count() - 1) as u64;
+    let mut x: u64 = seed.wrapping_mul(0x9E3779B97F4A7C15) | 1;
+    let mut rnd = move || { x ^= x << 13; x ^= x >> 7; x ^= x << 17; x };
+    let kinds = ['c', 'g', 'h'];
+    let mut live: HashMap<(char, u32), u64> = HashMap::new();
+    let mut poisoned: std::collections::HashSet<(char, u64)> = std::collections::HashSet::new();
+    let mut errs: Vec<String> = Vec::new();
+    let mut nfail = 0u64;
+    let (mut p_create, mut p_hit, mut p_retain, mut p_visit, mut ops_poisoned, mut ops) = (0u64, 0u64, 0u64, 0u64, 0u64, 0u64);
+    macro_rules! fail { ($($a:tt)*) => {{ nfail += 1; if errs.len() < 4 { errs.push(format!($($a)*)); } }} }
+    let retain_with = |kind: char, f: &mut dyn FnMut(&Key, &H) -> bool| match kind {
+        'c' => reg.retain_counters(|k, h| f(k, h)), 'g' => reg.retain_gauges(|k, h| f(k, h)), _ => reg.retain_histograms(|k, h| f(k, h)) };
+    let visit_with = |kind: char, f: &mut dyn FnMut(&Key, &H)| match kind {
+        'c' => reg.visit_counters(|k, h| f(k, h)), 'g' => reg.visit_gauges(|k, h| f(k, h)), _ => reg.visit_histograms(|k, h| f(k, h)) };
+    for round in 0..rounds {
+        // populate
+        for _ in 0..(6 + rnd() % 20) {
+            let (kind, c, v) = (kinds[(rnd() % 3) as usize], (rnd() % 96) as u32, (rnd() % 6) as u32);
+            let key = build_key(c, v);
+            let shard = key.get_hash() & mask;
+            ops += 1; if poisoned.contains(&(kind, shard)) { ops_poisoned += 1; }
+            let was = live.get(&(kind, c)).copied();
+            if rnd() % 4 == 0 {
+                let tok = run_op(&reg, &Op::CreateP(kind, c, v), Some(&key));
+                if was.is_none() { p_create += 1; poisoned.insert((kind, shard)); } else { p_hit += 1; }
+                let id: Option<u64> = tok[1..].parse().ok();
+                match (was, id) {
+                    (Some(w), Some(i)) if w == i => {}
+                    (None, Some(i)) if !live.values().any(|y| *y == i) => { live.insert((kind, c), i); }
+                    _ => fail!("round {}: panicking get_or_create {}{} reported {} (class had {:?})", round, kind, c, tok, was),
+                }
+            } else {
+                let id = kr_goc(&reg, kind, &key).0.id;
+                match was { Some(w) if w != id => fail!("round {}: get_or_create {}{} returned {} not {}", round, kind, c, id, w), None => { live.insert((kind, c), id); } _ => {} }
+            }
+        }
+        // one panicking sweep
+        let kind = kinds[(rnd() % 3) as usize];
+        let nlive = live.keys().filter(|(k, _)| *k == kind).count() as u64;
+        let at = 1 + rnd() % (nlive + 2);
+        if rnd() % 2 == 0 {
+            let mut calls = 0u64;
+            let mut dropped: Vec<u32> = Vec::new();
+            let mut bomb_shard: Option<u64> = None;
+            let drop_mod = 2 + rnd() % 3;
+            let r = std::panic::catch_unwind(std::panic::AssertUnwindSafe(|| retain_with(kind, &mut |k: &Key, _h: &H| {
+                calls += 1;
+                if calls == at { bomb_shard = Some(k.get_hash() & mask); panic!("predicate"); }
+                let c = class_of(k);
+                if (c as u64 + calls) % drop_mod == 0 { dropped.push(c); false } else { true }
+            })));
+            if r.is_err() { p_retain += 1; if let Some(sh) = bomb_shard { poisoned.insert((kind, sh)); } }
+            for c in dropped { if live.remove(&(kind, c)).is_none() { fail!("round {}: retain predicate was offered {}{} which is not live", round, kind, c); } }
+        } else {
+            let mut calls = 0u64;
+            let r = std::panic::catch_unwind(std::panic::AssertUnwindSafe(|| visit_with(kind, &mut |_k: &Key, _h: &H| { calls += 1; if calls == at { panic!("callback"); } })));
+            if r.is_err() { p_visit += 1; }
+        }
+        // ordinary operations afterwards, on every shard
+        for ((k, c), id) in live.iter() {
+            let key = build_key(*c, (rnd() % 6) as u32);
+            ops += 1; if poisoned.contains(&(*k, key.get_hash() & mask)) { ops_poisoned += 1; }
+            match kr_get(&reg, *k, &key) { Some(h) if h.0.id == *id => {}, other => fail!("round {}: get {}{} after a panic returned {:?}, expected {}", round, k, c, other.map(|h| h.0.id), id) }
+        }
+        for kind in kinds {
+            let mut offered: Vec<(u32, u64)> = Vec::new();
+            retain_with(kind, &mut |k: &Key, h: &H| { offered.push((class_of(k), h.0.id)); true });
+            offered.sort();
+            let mut want: Vec<(u32, u64)> = live.iter().filter(|((k, _), _)| *k == kind).map(|((_, c), id)| (*c, *id)).collect(); want.sort();
+            ops += 1;
+            if offered != want { fail!("round {}: retain_{} offered {} entries to its predicate, {} are live (poisoned shards of this kind: {})", round, kind, offered.len(), want.len(), poisoned.iter().filter(|(k, _)| *k == kind).count()); }
+            let mut v = visit(&reg, kind); v.sort();
+            if v != want { fail!("round {}: visit of {} lists {} entries, {} are live", round, kind, v.len(), want.len()); }
+        }
+        // a selective retain and some deletes, truthful whatever the lock state
+        let kind = kinds[(rnd() % 3) as usize];
+        let m = 2 + rnd() % 3;
+        retain_with(kind, &mut |k: &Key, _h: &H| class_of(k) as u64 % m != 0);
+        live.retain(|(k, c), _| *k != kind || *c as u64 % m != 0);
+        for _ in 0..4 {
+            let (kind, c) = (kinds[(rnd() % 3) as usize], (rnd() % 96) as u32);
+            let key = build_key(c, (rnd() % 6) as u32);
+            ops += 1; if poisoned.contains(&(kind, key.get_hash() & mask)) { ops_poisoned += 1; }
+            let b = kr_del(&reg, kind, &key);
+            let want = live.remove(&(kind, c)).is_some();
+            if b != want { fail!("round {}: delete {}{} returned {} but the class was {}", round, kind, c, b, if want { "present" } else { "absent" }); }
+        }
+        for kind in kinds {
+            let mut v = visit(&reg, kind); v.sort();
+            let mut want: Vec<(u32, u64)> = live.iter().filter(|((k, _), _)| *k == kind).map(|((_, c), id)| (*c, *id)).collect(); want.sort();
+            if v != want { fail!("round {}: after retain/delete, visit of {} lists {} entries, {} are live", round, kind, v.len(), want.len()); }
+        }
+        if round % 16 == 15 {
+            reg.clear(); live.clear(); ops += 1;
+            for kind in kinds { if !visit(&reg, kind).is_empty() { fail!("round {}: clear left entries of kind {} behind", round, kind); } }
+        }
+    }
+    format!("PANICS ok={} failures={} rounds={} ops={} panicking closures: get_or_create create-path {} hit-path {} retain predicate {} visit callback {} ; poisoned (kind, shard) locks {} ; operations on poisoned shards {} ; {}",
+            if nfail == 0 { 1 } else { 0 }, nfail, rounds, ops, p_create, p_hit, p_retain, p_visit, poisoned.len(), ops_poisoned, errs.join(" | "))
+}
+
 // only this property's own yield sites take part in the schedule: instrumented code of other
 // properties reached from here (e.g. Key::get_hash under a registry lock) must pass through
 fn own_site(site: u32) -> bool { (601..=615).contains(&site) }
 
 fn main() {
+    // panics of caller-supplied closures are part of the cases: keep stderr quiet, they are reported as outcomes
+    std::panic::set_hook(Box::new(|_| {}));
     sched::set_site_filter(Some(own_site));
     let stdin = std::io::stdin();
     let stdout = std::io::stdout();
@@ -1007,6 +1135,12 @@ fn main() {
         if let Some(r) = line.trim().strip_prefix("STRESS") {
             let a: Vec<u64> = r.split_whitespace().map(|x| x.parse().unwrap()).collect();
             writeln!(w, "{}", stress(a[0] as usize, a[1] as usize, a[2])).unwrap();
+            continue;
+        }
+        if let Some(r) = line.trim().strip_prefix("PANICS") {
+            let a: Vec<u64> = r.split_whitespace().map(|x| x.parse().unwrap()).collect();
+            let r = std::panic::catch_unwind(move || panics_engine(a[0] as usize, a[1]));
+            writeln!(w, "{}", r.unwrap_or_else(|_| "PANICS ok=0 failures=1 ; the engine panicked".to_string())).unwrap();
             continue;
         }
         if line.trim() == "ATABLE" { writeln!(w, "{}", atable()).unwrap(); continue; }
